@@ -217,6 +217,11 @@ def matmulCh [One α] (conj : α → α) (A B : Net α) : Net α :=
 def matmulSuper [One α] (conj : α → α) (S B : Net α) : Net α :=
   linkProduct conj [([0, 1, 2, 3], S), ([1, 2], B)] [0, 3]
 
+/-- the tensor product of two channels as a super-channel (comb with an open slot):
+`link_product("jk,lm->jklm", P, Q)`. -/
+def tensorCh [One α] (conj : α → α) (P Q : Net α) : Net α :=
+  linkProduct conj [([0, 1], P), ([2, 3], Q)] [0, 1, 2, 3]
+
 /-- `__matmul__` with its checks (`none` = the method raises).  As in the code, the super-channel
 branch compares only the first inner leg (`partition[1]` with `second.partition[0]`); for the
 second inner leg — and for every contracted index of a general `link_product` — the real code
@@ -251,6 +256,73 @@ def addNet (conj : α → α) (A B : Net α) : Net α :=
 
 /-- `conj()`. -/
 def conjNet (conj : α → α) (N : Net α) : Net α := { N with ten := fun t => conj (N.ten t) }
+
+/-- `QuantumChannel.from_operator(ρ)` for a `d × d` operator: the one-leg partition `(d,)` is
+completed to `(1, d)` (a state: trivial input), the tensor is `ρ` flattened in C order. -/
+def stateNet (ρ : Mat α) (d : Nat) : Net α :=
+  { part := [1, d], sysIn := [true, false], pure := false
+    ten := fun t => ρ (t.getD 1 0 / d) (t.getD 1 0 % d) }
+
+/-! ### `is_hermitian`, `is_causal`, `is_unital` (exact versions of the norm tests) -/
+
+/-- `TraceOperation(d).full()`: `eye(d)` flattened. -/
+def eyeVec [One α] (d : Nat) (t : Nat) : α := if t / d = t % d then 1 else 0
+
+/-- all multi-indices of a shape, C order. -/
+def allIdx : List Nat → List (List Nat)
+  | [] => [[]]
+  | p :: ps => (List.range p).flatMap (fun i => (allIdx ps).map (fun is => i :: is))
+
+/-- `tensordot(T, TraceOperation(d).full(), axes=(-1, 0))`: contract the last leg with the
+flattened identity (partial trace over that system). -/
+def traceLast [One α] (d : Nat) (T : List Nat → α) : List Nat → α :=
+  fun idx => sumRange (d * d) (fun t => T (idx ++ [t]) * eyeVec d t)
+
+/-- `tensordot(T, TraceOperation(d).full(), axes=(0, 0))`: contract the first leg. -/
+def traceFirst [One α] (d : Nat) (T : List Nat → α) : List Nat → α :=
+  fun idx => sumRange (d * d) (fun t => T (t :: idx) * eyeVec d t)
+
+/-- scalar multiple `n · x` by repeated addition (no `Nat` cast needed). -/
+def nsmulN : Nat → α → α
+  | 0, _ => 0
+  | n + 1, x => nsmulN n x + x
+
+/-- one step of `QuantumComb.is_causal`: with `reduced = Tr_out T` and `sub = Tr_in reduced` the
+test `‖reduced − sub ⊗ 1_in / d_in‖ ≤ tol`, exactly: `d_in · reduced = sub ⊗ 1_in`. -/
+def causalStep [One α] [DecidableEq α] (part : List Nat) (T : List Nat → α) : Bool :=
+  let n := part.length
+  let dout := part.getD (n - 1) 1
+  let din := part.getD (n - 2) 1
+  let reduced := traceLast dout T
+  let sub := traceLast din reduced
+  (allIdx (sq (part.take (n - 2)))).all (fun idx =>
+    (List.range (din * din)).all (fun t =>
+      nsmulN din (reduced (idx ++ [t])) == sub idx * eyeVec din t))
+
+/-- `QuantumComb.is_causal`: the step, then recursively the comb without its last two legs. -/
+def isCausal [One α] [DecidableEq α] (conj : α → α) (N : Net α) : Bool :=
+  let rec go : Nat → List Nat → (List Nat → α) → Bool
+    | 0, _, _ => true
+    | fuel + 1, part, T =>
+      causalStep part T &&
+        (if part.length ≤ 2 then true
+         else go fuel (part.take (part.length - 2))
+           (traceLast (part.getD (part.length - 2) 1) (traceLast (part.getD (part.length - 1) 1) T)))
+  go N.part.length N.part (fullTen conj N)
+
+/-- `QuantumChannel.is_unital` for a channel object: with `reduced = Tr_in T`,
+`d_out · reduced = (Tr reduced) · 1_out`. -/
+def isUnital [One α] [DecidableEq α] (conj : α → α) (N : Net α) : Bool :=
+  let din := N.part.getD 0 1
+  let dout := N.part.getD 1 1
+  let reduced := traceFirst din (fullTen conj N)
+  let sub := traceFirst dout reduced []
+  (List.range (dout * dout)).all (fun t => nsmulN dout (reduced [t]) == eyeVec dout t * sub)
+
+/-- `is_hermitian`: pure networks always; otherwise `matrix() = matrix()†`. -/
+def isHermitian [DecidableEq α] (conj : α → α) (N : Net α) : Bool :=
+  N.pure || (List.range (prodL N.part)).all (fun r => (List.range (prodL N.part)).all (fun c =>
+    conj (matrix conj N c r) == matrix conj N r c))
 
 /-! ### reference objects used in the theorems -/
 
